@@ -342,7 +342,15 @@ void nsync_cv_signal (nsync_cv *pcv) {
 				} while (!ATM_CAS (&DLL_WAITER (first)->remove_count,
 						   old_value, old_value+1));
 			}
-			to_wake_list = nsync_dll_make_last_in_list_ (to_wake_list, first);
+			if ((first_nw->flags & NSYNC_WAITER_FLAG_MUCV) != 0) {
+				to_wake_list = nsync_dll_make_last_in_list_ (to_wake_list, first);
+			} else {
+				/* An nsync_wait_n() waiter has no remove_count to
+				   tell its cv_dequeue() that it has been taken off
+				   the queue, so it is woken while the spinlock is
+				   still held.  */
+				wake_nsync_waiter (first_nw);
+			}
 			if ((first_nw->flags & NSYNC_WAITER_FLAG_MUCV) != 0 &&
 			    DLL_WAITER (first)->l_type == nsync_reader_type_) {
 				int woke_writer;
@@ -383,9 +391,11 @@ void nsync_cv_signal (nsync_cv *pcv) {
 								    &DLL_WAITER (p)->remove_count);
 							} while (!ATM_CAS (&DLL_WAITER (p)->remove_count,
 									   old_value, old_value+1));
+							to_wake_list = nsync_dll_make_last_in_list_ (
+								to_wake_list, p);
+						} else {
+							wake_nsync_waiter (p_nw); /* see above */
 						}
-						to_wake_list = nsync_dll_make_last_in_list_ (
-							to_wake_list, p);
 					}
 				}
 			}
@@ -428,8 +438,12 @@ void nsync_cv_broadcast (nsync_cv *pcv) {
 					old_value = ATM_LOAD (&DLL_WAITER (p)->remove_count);
 				} while (!ATM_CAS (&DLL_WAITER (p)->remove_count,
 						   old_value, old_value+1));
+				to_wake_list = nsync_dll_make_last_in_list_ (to_wake_list, p);
+			} else {
+				/* nsync_wait_n() waiters are woken under the
+				   spinlock; see nsync_cv_signal().  */
+				wake_nsync_waiter (p_nw);
 			}
-			to_wake_list = nsync_dll_make_last_in_list_ (to_wake_list, p);
 		}
 		/* Release spinlock and mark queue empty. */
 		ATM_STORE_REL (&pcv->word, 0); /* release store */
